@@ -1,3 +1,8 @@
+#[cfg(orx_concurrent_iter_verif)]
+use crate::verif_shim::AtomicUsize;
+#[cfg(orx_concurrent_iter_verif)]
+use std::sync::atomic::Ordering;
+#[cfg(not(orx_concurrent_iter_verif))]
 use std::sync::atomic::{AtomicUsize, Ordering};
 
 /// An atomic counter, simply a wrapper around `AtomicUsize` with utility methods useful for atomic iterators.
